@@ -59,7 +59,7 @@ def main():
         ok, msg = build_ext(tree)
         env = dict(os.environ)
         env.pop("JTIOSUE_QUBOVERT_VERIF", None)
-        demo = os.path.join(src, "demo.py")
+        demo = os.path.abspath(os.path.join(src, "demo.py"))
         rc0, o0, e0 = sh([PY, demo], cwd=tree, env=env, timeout=600)
         res["demo_unchanged_rc"] = rc0
         rc, out, err = sh(["git", "-C", tree, "apply", os.path.join(os.path.abspath(src), "patch.diff")])
